@@ -24,22 +24,22 @@ func (Prop) Budget(tier string) int {
 func (Prop) Describe() core.Description {
 	return core.Description{
 		Level: "fault_enumeration",
-		Rule: "enumerated part (walked completely, every tier): 6 helpers x {V, *P} x 8 behaviours of the type under test x 4 Before x 4 After hook behaviours x 23 predicate kinds (met, unmet, near-miss, one-byte-longer, empty and two caller-written silent variants) x 3 constraints x 4 positions {only, first, middle, last of 3} (+ TypeHelper variants, + types lacking the interface under both FailNow environments); " +
-			"seeded part: lists of 0-12 cases (one list in 40: 13-64 cases) with tape-chosen combinations, several faults per list, 11 type shapes (V, *P, *V, interface-typed Both, string-kinded Str, slice-kinded Bytes, map-kinded Map, integer-kinded Num, OnlyM, OnlyU, None), both TestingT environments, optional recording TypeHelper, singleton re-runs of every case. " +
+		Rule: "enumerated part (walked completely, every tier): 6 helpers x {V, *P} x 8 behaviours of the type under test x 4 Before x 4 After hook behaviours x 25 predicate kinds (met, unmet, near-miss, one-byte-longer, empty, dot-must-not-cross-newline and three caller-written silent variants) x 3 constraints x 4 positions {only, first, middle, last of 3} (+ TypeHelper variants, + types lacking the interface under both FailNow environments); " +
+			"seeded part: lists of 0-12 cases (one list in 40: 13-64 cases) with tape-chosen combinations, several faults per list, 12 type shapes (V, *P, *V, interface-typed Both holding *P or *Q, string-kinded Str, slice-kinded Bytes, map-kinded Map, integer-kinded Num, uint8-kinded Byte, OnlyM, OnlyU, None), both TestingT environments, optional recording TypeHelper, singleton re-runs of every case. " +
 			"Oracle written from the statement: per case, failure reported <=> applicable and unsatisfied (L2), nothing for inapplicable cases (L4), no panic escapes (L3), type lacking the interface reported (L1), hooks receive their case's list position (L5). " +
 			"A list is non-trivial if a collaborator fault fired in an applicable case; distinct = distinct (helper, shape, position class, constraint, behaviour, hooks, predicate, verdict) tuples reached",
 		Assumptions: []string{
 			"a panic of the type under test counts as an error whose text begins 'panic: <value>\\n' (pinned by the library's own Test_MarshalText_Panic and CHANGELOG 0.8.0)",
 			"two corners the statement leaves open are not generated: an error returned with a non-nil but empty slice; hooks that mutate the case they are handed. A non-empty list for a type lacking the interface is expected to be reported whatever the constraints of its cases (the type is a property of T, not of a case; anchor: interface check on the first case)",
 			"failures are attributed to cases by bracketing recorder events between the scripted collaborator invocations of consecutive cases",
-			"lists longer than 64 cases and types other than the eleven scripted shapes are outside the bound",
+			"lists longer than 64 cases and types other than the twelve scripted shapes are outside the bound",
 		},
 		Real: []string{"test.MarshalText/Binary/JSON", "test.UnmarshalText/Binary/JSON", "callForCase, safe*, castToFunc, helperNew, helperAssert*", "AnyError/Error/ErrorHasPrefix/ErrorHasSuffix/ErrorMatch", "testify assert"},
 		Stub: []string{"types under test (scripted V, *P, *V, interface-typed Both, Str, Bytes, Map, Num, OnlyM, OnlyU, None)", "Before/After hooks (scripted)", "TestingT (recorder; FailNow returns / exits goroutine)", "TypeHelper (recording)"},
 		Notes: map[string]string{
 			"sim_time_note": "C20 has no clock in it; sim_time_ns is 0 by construction",
 		},
-		RequiredProbesQuick: []string{"panic_recovered_call", "panic_recovered_hook", "error_with_data", "wrong_data_only", "inapplicable_faulty", "goexit_env", "invalid_regexp", "lacking_interface", "lacking_interface_all_inapplicable", "typehelper_used", "nil_receiver", "nil_value_unmarshal", "nil_interface_value", "long_list", "before_hook_adjusts_case", "asymmetric_typehelper_wildcard"},
+		RequiredProbesQuick: []string{"panic_recovered_call", "panic_recovered_hook", "error_with_data", "wrong_data_only", "inapplicable_faulty", "goexit_env", "invalid_regexp", "lacking_interface", "lacking_interface_all_inapplicable", "typehelper_used", "nil_receiver", "nil_value_unmarshal", "nil_interface_value", "long_list", "before_hook_adjusts_case", "asymmetric_typehelper_wildcard", "cloning_typehelper", "emptied_not_nil", "listed_nil_value", "second_concrete_type"},
 	}
 }
 
@@ -49,7 +49,7 @@ func (Prop) Prelude(o core.RunOpts) *core.Result { return core.NewResult() }
 // ---- enumeration
 
 const (
-	nBeh  = 8 // bRight..bNothing (the nil receiver has its own block below)
+	nBeh  = 8 // bRight..bNothing (the nil receiver and the "emptied" behaviours have their own blocks below)
 	nPos  = 4
 	nCons = 3
 )
@@ -67,13 +67,24 @@ func (Prop) EnumSize(tier string) int {
 // behaviour x position; (b) ways of being wrong x payload ending in a newline or not: 6 x 2 x
 // numWrong x 2 x {right, wrong}; (c) asymmetric TypeHelper with an open payload: 3 unmarshal
 // helpers x {V, *P} x behaviour x position
-func enumExtras() int { return 6*2*nBeh*nPos + 6*2*numWrong*2*2 + 3*2*nBeh*nPos + enumKinds() }
+func enumExtras() int { return 6*2*nBeh*nPos + 6*2*numWrong*2*2 + 3*2*nBeh*nPos + enumKinds() + enumAdjust2() + enumPreds2() }
 
-// (d) string-, slice-, map- and integer-kinded T: 6 helpers x {Str, Bytes, Map, Num} x behaviour x {no predicate,
+// (e) adjusting Before hook where the fresh value depends on the adjusted case: V with a
+// prototype-cloning TypeHelper, and interface-typed T whose listed value is nil and whose hook
+// supplies it (positions first/middle/last of 3; *P and *Q): 3 unmarshal helpers x 2 x behaviour x 3
+func enumAdjust2() int { return 3 * 3 * nBeh * 3 }
+
+// (f) the two latest predicate kinds and a second concrete type for interface-typed T:
+// 6 helpers x {V, *P, Both} x behaviour x {accept-nil, .+$} x position x {*P, *Q}
+func enumPreds2() int { return 6 * 3 * nBeh * 2 * nPos * 2 }
+
+// (d) string-, slice-, map-, integer- and uint8-kinded T: 6 helpers x {Str, Bytes, Map, Num, Byte} x behaviour (incl. emptied) x listed-nil x {no predicate,
 // AnyError, Error(met), HasPrefix(unmet), custom silent accept} x position x TypeHelper {0, 1}
-var kindPreds = [...]int{pNone, pAny, pExactMet, pPrefixUnmet, pCustomAccept}
+var kindPreds = [...]int{pNone, pAny, pExactMet, pPrefixUnmet, pCustomAccept, pCustomAcceptNil}
 
-func enumKinds() int { return 6 * 4 * nBeh * len(kindPreds) * nPos * 2 }
+var kindBehs = [...]int{bRight, bWrong, bError, bErrorWithData, bPanicString, bPanicError, bPanicAfterSet, bNothing, bErrorEmptied, bEmptied}
+
+func enumKinds() int { return 6 * 5 * len(kindBehs) * len(kindPreds) * nPos * 2 * 2 }
 
 func extraSpec(r int) (ls listSpec, ok bool) {
 	a := 6 * 2 * nBeh * nPos
@@ -109,6 +120,43 @@ func extraSpec(r int) (ls listSpec, ok bool) {
 		r /= 2
 		ls.enc, ls.dir = r/2, r%2
 		ls.cases = []caseSpec{c}
+	case r >= a+b+3*2*nBeh*nPos+enumKinds()+enumAdjust2():
+		r -= a + b + 3*2*nBeh*nPos + enumKinds() + enumAdjust2()
+		c := caseSpec{payload: "x"}
+		c.other = r%2 == 1
+		r /= 2
+		pos := r % nPos
+		r /= nPos
+		c.pred = [...]int{pCustomAcceptNil, pMatchDotAll}[r%2]
+		r /= 2
+		c.beh = r % nBeh
+		r /= nBeh
+		ls.shape = [...]int{shV, shP, shIface}[r%3]
+		r /= 3
+		ls.enc, ls.dir = r/2, r%2
+		if c.beh == bPanicAfterSet && ls.dir == dirMarshal {
+			return ls, false
+		}
+		ls.cases = place(c, pos)
+	case r >= a+b+3*2*nBeh*nPos+enumKinds():
+		r -= a + b + 3*2*nBeh*nPos + enumKinds()
+		c := caseSpec{payload: "x", adjust: true}
+		pos := 1 + r%3
+		r /= 3
+		c.beh = r % nBeh
+		r /= nBeh
+		switch r % 3 {
+		case 0:
+			ls.shape, ls.typeHelper = shV, 3
+		case 1:
+			ls.shape = shIface
+		default:
+			ls.shape = shIface
+			c.other = true
+		}
+		r /= 3
+		ls.enc, ls.dir = r, dirUnmarshal
+		ls.cases = place(c, pos)
 	case r >= a+b+3*2*nBeh*nPos:
 		r -= a + b + 3*2*nBeh*nPos
 		c := caseSpec{payload: "x"}
@@ -118,10 +166,12 @@ func extraSpec(r int) (ls listSpec, ok bool) {
 		r /= nPos
 		c.pred = kindPreds[r%len(kindPreds)]
 		r /= len(kindPreds)
-		c.beh = r % nBeh
-		r /= nBeh
-		ls.shape = shStr + r%4
-		r /= 4
+		c.beh = kindBehs[r%len(kindBehs)]
+		r /= len(kindBehs)
+		c.nilExpect = r%2 == 1
+		r /= 2
+		ls.shape = shStr + r%5
+		r /= 5
 		ls.enc, ls.dir = r/2, r%2
 		if c.beh == bPanicAfterSet && ls.dir == dirMarshal {
 			return ls, false
@@ -303,7 +353,7 @@ func classOf(ls listSpec, l *listRun) (nontrivial bool, classes []uint64) {
 		if l.failures[i] > 0 {
 			verdict = 1
 		}
-		h.Add(uint64(ls.enc*2+ls.dir)<<40 | uint64(ls.shape)<<32 | uint64(pos)<<28 | uint64(c.constraint)<<24 | uint64(c.beh)<<16 | uint64(c.before)<<12 | uint64(c.after)<<8 | uint64(c.pred)<<4 | uint64(verdict)<<1 | uint64(ls.typeHelper)<<50 | b2u(c.adjust)<<46 | uint64(c.wrongKind)<<52 | b2u(c.wildcard)<<47 | b2u(c.nilValue)<<44 | b2u(c.nilIface)<<45)
+		h.Add(uint64(ls.enc*2+ls.dir)<<40 | uint64(ls.shape)<<32 | uint64(pos)<<28 | uint64(c.constraint)<<24 | uint64(c.beh)<<16 | uint64(c.before)<<12 | uint64(c.after)<<8 | uint64(c.pred)<<4 | uint64(verdict)<<1 | uint64(ls.typeHelper)<<50 | b2u(c.adjust)<<46 | uint64(c.wrongKind)<<52 | b2u(c.wildcard)<<47 | b2u(c.nilExpect)<<48 | b2u(c.other)<<49 | b2u(c.nilValue)<<44 | b2u(c.nilIface)<<45)
 		classes = append(classes, uint64(h))
 	}
 	if !ls.hasInterface() && len(ls.cases) > 0 {
@@ -405,6 +455,18 @@ func probes(res *core.Result, ls listSpec, l *listRun) {
 		if c.wildcard {
 			res.Probes.Inc("asymmetric_typehelper_wildcard")
 		}
+		if ls.typeHelper == 3 {
+			res.Probes.Inc("cloning_typehelper")
+		}
+		if c.beh == bErrorEmptied || c.beh == bEmptied {
+			res.Probes.Inc("emptied_not_nil")
+		}
+		if c.nilExpect {
+			res.Probes.Inc("listed_nil_value")
+		}
+		if c.other {
+			res.Probes.Inc("second_concrete_type")
+		}
 		if c.pred == pMatchInvalid {
 			res.Probes.Inc("invalid_regexp")
 			res.Faults.Inc("predicate_invalid_regexp")
@@ -417,7 +479,7 @@ func finish(res *core.Result, ls listSpec, o core.RunOpts, extraTrace []string) 
 	h := core.NewHash()
 	h.Add(uint64(ls.enc*2+ls.dir)<<8 | uint64(ls.shape)<<4 | b2u(ls.goexit)<<1 | uint64(ls.typeHelper)<<2)
 	for _, c := range ls.cases {
-		h.Add(uint64(c.constraint)<<24 | uint64(c.beh)<<16 | uint64(c.before)<<12 | uint64(c.after)<<8 | uint64(c.pred) | b2u(c.nilValue)<<28 | b2u(c.nilIface)<<29 | b2u(c.adjust)<<30 | uint64(c.wrongKind)<<32 | b2u(c.wildcard)<<31)
+		h.Add(uint64(c.constraint)<<24 | uint64(c.beh)<<16 | uint64(c.before)<<12 | uint64(c.after)<<8 | uint64(c.pred) | b2u(c.nilValue)<<28 | b2u(c.nilIface)<<29 | b2u(c.adjust)<<30 | uint64(c.wrongKind)<<32 | b2u(c.wildcard)<<31 | b2u(c.nilExpect)<<36 | b2u(c.other)<<37)
 	}
 	for _, e := range l.events {
 		h.AddString(e.what)
@@ -471,7 +533,7 @@ func (Prop) RunEnum(i int, o core.RunOpts) *core.Result {
 	return finish(res, ls, o, []string{fmt.Sprintf("enumeration index %d", i)})
 }
 
-var shapeWeights = [...]int{shV, shV, shV, shP, shP, shP, shOnlyM, shOnlyU, shNone, shIface, shIface, shPV, shPV, shStr, shStr, shBytes, shBytes, shMap, shMap, shNum, shNum}
+var shapeWeights = [...]int{shV, shV, shV, shP, shP, shP, shOnlyM, shOnlyU, shNone, shIface, shIface, shPV, shPV, shStr, shStr, shBytes, shBytes, shMap, shMap, shNum, shNum, shByte}
 
 func genCase(t *core.Tape) caseSpec {
 	c := caseSpec{}
@@ -495,6 +557,8 @@ func genCase(t *core.Tape) caseSpec {
 	c.adjust = t.Bool(1, 8)
 	c.wrongKind = t.Choose(numWrong)
 	c.wildcard = t.Bool(1, 4)
+	c.nilExpect = t.Bool(1, 6)
+	c.other = t.Bool(1, 3)
 	c.payload = [...]string{"p", "", "payload with spaces", "{\"k\":1}", "\x00\xff", "~", "line\n", "100% %s"}[t.Choose(8)]
 	return c
 }
@@ -509,7 +573,7 @@ func (Prop) Run(t *core.Tape, o core.RunOpts) *core.Result {
 	ls.shape = shapeWeights[t.Choose(len(shapeWeights))]
 	ls.goexit = t.Bool(1, 3)
 	if ls.dir == dirUnmarshal && t.Bool(1, 3) {
-		ls.typeHelper = 1 + t.Choose(2)
+		ls.typeHelper = 1 + t.Choose(3)
 	}
 	n := t.Choose(13)
 	if t.Bool(1, 40) {
